@@ -1,5 +1,5 @@
 (* SpecFacts.v -- facts about the contiguous-log spec store *)
-From RW Require Import Base.Bytes Vfy.Checksum Vfy.Spec.
+From RW Require Import Base.Bytes Base.BytesFacts Vfy.Checksum Vfy.Spec.
 From Coq Require Import ZifyN ZifyNat ZifyBool.
 Open Scope N_scope.
 
@@ -193,4 +193,160 @@ Qed.
 Lemma holds_range_first s lo hi : holds_range s lo hi -> first_index s <= lo.
 Proof.
   intros (Hne & Hf & _). unfold first_index. destruct (s_logs s); [contradiction|exact Hf].
+Qed.
+
+(* ---- the written log (ghost) vs the store ------------------------------------- *)
+Lemma aligned_refl s : aligned s s.
+Proof. unfold aligned. destruct (s_logs s); [exact I|split; lia]. Qed.
+
+Lemma aligned_cases st sh :
+  aligned st sh ->
+  (s_logs st = [] /\ s_logs sh = []) \/
+  (s_logs st <> [] /\ s_logs sh <> [] /\ s_first sh <= s_first st /\
+   s_first sh + len (s_logs sh) = s_first st + len (s_logs st)).
+Proof.
+  unfold aligned. destruct (s_logs st) as [|x l]; destruct (s_logs sh) as [|y m]; try contradiction.
+  - left; auto.
+  - intros [H1 H2]. right. repeat split; try discriminate; assumption.
+Qed.
+
+Lemma aligned_intro st sh :
+  s_logs st <> [] -> s_logs sh <> [] -> s_first sh <= s_first st ->
+  s_first sh + len (s_logs sh) = s_first st + len (s_logs st) -> aligned st sh.
+Proof.
+  unfold aligned. destruct (s_logs st); destruct (s_logs sh); try contradiction; auto.
+Qed.
+
+Lemma aligned_empty st sh : s_logs st = [] -> s_logs sh = [] -> aligned st sh.
+Proof. unfold aligned. intros -> ->. exact I. Qed.
+
+Lemma store_logs_aligned st sh b st' :
+  aligned st sh -> store_logs st b = Some st' ->
+  exists sh', store_logs sh b = Some sh' /\ aligned st' sh'.
+Proof.
+  intros Ha H. destruct b as [|e0 r].
+  - inversion H; subst. exists sh. split; [reflexivity|exact Ha].
+  - destruct (aligned_cases _ _ Ha) as [[E1 E2]|(N1 & N2 & Hf & Hl)]; unfold store_logs in *.
+    + rewrite E1 in H. rewrite E2.
+      destruct (e_index e0 =? 0); [discriminate|].
+      destruct (contig_from (e_index e0) (e0 :: r)); [|discriminate].
+      inversion H; subst. eexists; split; [reflexivity|]. apply aligned_refl.
+    + destruct (s_logs st) as [|x l] eqn:Est; [contradiction|].
+      destruct (s_logs sh) as [|y m] eqn:Esh; [contradiction|].
+      rewrite Hl.
+      destruct (contig_from (s_first st + len (x :: l)) (e0 :: r)); [|discriminate].
+      inversion H; subst. eexists; split; [reflexivity|].
+      apply aligned_intro; cbn [s_logs s_first]; try discriminate; try exact Hf.
+      change (x :: l ++ e0 :: r) with ((x :: l) ++ e0 :: r). rewrite !app_length. lia.
+Qed.
+
+Lemma store_logs_aligned_none st sh b :
+  aligned st sh -> store_logs st b = None -> store_logs sh b = None.
+Proof.
+  intros Ha H. destruct b as [|e0 r]; [discriminate|].
+  destruct (aligned_cases _ _ Ha) as [[E1 E2]|(N1 & N2 & Hf & Hl)]; unfold store_logs in *.
+  - rewrite E1 in H. rewrite E2. exact H.
+  - destruct (s_logs st) as [|x l] eqn:Est; [contradiction|].
+    destruct (s_logs sh) as [|y m] eqn:Esh; [contradiction|].
+    rewrite Hl. destruct (contig_from (s_first st + len (x :: l)) (e0 :: r)); [discriminate|reflexivity].
+Qed.
+
+Lemma tamper_aligned st sh i e : aligned st sh -> aligned (tamper st i e) sh.
+Proof.
+  intros Ha. destruct (tamper_shape st i e) as [Hf Hl].
+  destruct (aligned_cases _ _ Ha) as [[E1 E2]|(N1 & N2 & H1 & H2)].
+  - apply aligned_empty; [|exact E2]. apply length_zero_iff_nil. rewrite Hl, E1. reflexivity.
+  - apply aligned_intro; auto; try lia.
+    intros C. apply N1. apply length_zero_iff_nil. rewrite <- Hl, C. reflexivity.
+Qed.
+
+Lemma last_index_nonempty s : s_logs s <> [] -> last_index s = s_first s + len (s_logs s) - 1.
+Proof. unfold last_index. destruct (s_logs s); [contradiction|reflexivity]. Qed.
+
+Lemma delete_aligned st sh mn mx st' :
+  aligned st sh -> wf_store sh -> delete_range st mn mx = Some st' ->
+  aligned st' (shadow_delete st sh mn mx) /\ wf_store (shadow_delete st sh mn mx).
+Proof.
+  intros Ha Hwf H. unfold delete_range, shadow_delete in *.
+  destruct (mx <? mn) eqn:Em; [inversion H; subst; auto|].
+  destruct (aligned_cases _ _ Ha) as [[E1 E2]|(N1 & N2 & Hf & Hl)].
+  - rewrite E1 in *. inversion H; subst. auto.
+  - pose proof (last_index_nonempty st N1) as Hlast.
+    destruct (s_logs st) as [|x l] eqn:Est; [contradiction|]. cbv zeta in *.
+    assert (Hlen : 0 < len (x :: l)) by (cbn [length]; lia).
+    destruct ((mx <? s_first st) || (last_index st <? mn)) eqn:Enoop.
+    + inversion H; subst st'. clear H.
+      destruct (last_index st <=? mx) eqn:E1; [|auto].
+      destruct (last_index st <? mn) eqn:E2; [auto|]. exfalso. lia.
+    + destruct (mn <=? s_first st) eqn:Ehead.
+      * destruct (last_index st <=? mx) eqn:Eall.
+        -- inversion H; subst st'. replace (last_index st <? mn) with false by lia.
+           split; [apply aligned_empty; reflexivity|]. intros C; contradiction C; reflexivity.
+        -- inversion H; subst st'. split; [|exact Hwf].
+           apply aligned_intro; cbn [s_logs s_first]; auto.
+           ++ intros C. apply (f_equal (@length entry)) in C. rewrite skipn_length in C. cbn [length] in *. lia.
+           ++ lia.
+           ++ rewrite skipn_length. cbn [length] in *. lia.
+      * destruct (last_index st <=? mx) eqn:Etail; [|discriminate].
+        inversion H; subst st'. replace (last_index st <? mn) with false by lia.
+        assert (Hk : (N.to_nat (mn - s_first sh) <= length (s_logs sh))%nat) by lia.
+        split.
+        -- apply aligned_intro; cbn [s_logs s_first]; auto.
+           ++ intros C. apply (f_equal (@length entry)) in C. rewrite firstn_length in C. cbn [length] in *. lia.
+           ++ intros C. apply (f_equal (@length entry)) in C. rewrite firstn_length in C. cbn [length] in *. lia.
+           ++ rewrite !firstn_length. cbn [length] in *. lia.
+        -- unfold wf_store. cbn [s_logs s_first]. intros _. apply Hwf. exact N2.
+Qed.
+
+(* without at-rest corruption the store is the part of the written log that
+   compaction has left: the same entries, from the store's first index on *)
+Definition suffix_of (st sh : sstore) : Prop :=
+  aligned st sh /\ s_logs st = skipn (N.to_nat (s_first st - s_first sh)) (s_logs sh).
+
+Lemma suffix_of_refl s : suffix_of s s.
+Proof. split; [apply aligned_refl|]. rewrite N.sub_diag. reflexivity. Qed.
+
+Lemma suffix_of_store st sh b st' sh' :
+  suffix_of st sh -> store_logs st b = Some st' -> store_logs sh b = Some sh' -> suffix_of st' sh'.
+Proof.
+  intros [Ha Hs] H1 H2. destruct (store_logs_aligned st sh b st' Ha H1) as (x & Hx & Ha').
+  rewrite H2 in Hx. inversion Hx; subst x. split; [exact Ha'|].
+  destruct b as [|e0 r]; [inversion H1; inversion H2; subst; exact Hs|].
+  destruct (aligned_cases _ _ Ha) as [[E1 E2]|(N1 & N2 & Hf & Hl)]; unfold store_logs in *.
+  - rewrite E1 in H1. rewrite E2 in H2.
+    destruct (e_index e0 =? 0); [discriminate|].
+    destruct (contig_from (e_index e0) (e0 :: r)); [|discriminate].
+    inversion H1; inversion H2; subst. cbn [s_first s_logs]. rewrite N.sub_diag. reflexivity.
+  - destruct (s_logs st) as [|x l] eqn:Est; [contradiction|].
+    destruct (s_logs sh) as [|y m] eqn:Esh; [contradiction|].
+    destruct (contig_from (s_first st + len (x :: l)) (e0 :: r)); [|discriminate].
+    destruct (contig_from (s_first sh + len (y :: m)) (e0 :: r)); [|discriminate].
+    inversion H1; inversion H2; subst. cbn [s_first s_logs].
+    change (y :: m ++ e0 :: r) with ((y :: m) ++ e0 :: r).
+    rewrite skipn_app_le by (cbn [length] in *; lia). rewrite <- Hs. reflexivity.
+Qed.
+
+Lemma suffix_of_delete st sh mn mx st' :
+  suffix_of st sh -> wf_store sh -> delete_range st mn mx = Some st' ->
+  suffix_of st' (shadow_delete st sh mn mx).
+Proof.
+  intros [Ha Hs] Hwf H. split; [apply (delete_aligned st sh mn mx st' Ha Hwf H)|].
+  unfold delete_range, shadow_delete in *.
+  destruct (mx <? mn) eqn:Em; [inversion H; subst; exact Hs|].
+  destruct (aligned_cases _ _ Ha) as [[E1 E2]|(N1 & N2 & Hf & Hl)].
+  - rewrite E1 in *. inversion H; subst. rewrite E1. exact Hs.
+  - pose proof (last_index_nonempty st N1) as Hlast.
+    destruct (s_logs st) as [|x l] eqn:Est; [contradiction|]. cbv zeta in *.
+    assert (Hlen : 0 < len (x :: l)) by (cbn [length]; lia).
+    destruct ((mx <? s_first st) || (last_index st <? mn)) eqn:Enoop.
+    + inversion H; subst st'. clear H.
+      destruct (last_index st <=? mx) eqn:E1; [|rewrite Est; exact Hs].
+      destruct (last_index st <? mn) eqn:E2; [rewrite Est; exact Hs|]. exfalso. lia.
+    + destruct (mn <=? s_first st) eqn:Ehead.
+      * destruct (last_index st <=? mx) eqn:Eall.
+        -- inversion H; subst st'. replace (last_index st <? mn) with false by lia. reflexivity.
+        -- inversion H; subst st'. cbn [s_logs s_first]. rewrite Hs, skipn_skipn'. f_equal. lia.
+      * destruct (last_index st <=? mx) eqn:Etail; [|discriminate].
+        inversion H; subst st'. replace (last_index st <? mn) with false by lia.
+        cbn [s_logs s_first]. rewrite Hs, firstn_skipn_comm. f_equal. f_equal. lia.
 Qed.
